@@ -139,7 +139,10 @@ class CSetOp(object):
             return int(f)
         if k == "DeclRefExpr":
             if e.n in env:
-                return env[e.n]
+                v = env[e.n]
+                if isinstance(v, tuple) and v and v[0] == "ref" and isinstance(env.get(v[1]), Cursor):
+                    return env[v[1]]          # a pointer to a cursor that has been initialised since
+                return v
             if e.n == "_Py_NoneStruct":
                 return ("none",)
             if e.n in ("BucketType", "SetType", "BTreeType", "TreeSetType"):
@@ -147,8 +150,12 @@ class CSetOp(object):
             raise AnalysisError("set-op table: unknown variable %s at %s:%s" % (e.n, e.f, e.l))
         if k == "UnaryOperator":
             if e.v == "&":
-                return self.ev(e.kids[0], env) if strip(e.kids[0]).k == "DeclRefExpr" \
-                    else self.ev(e.kids[0], env)
+                x = strip(e.kids[0])
+                if x.k == "DeclRefExpr" and "SetIteration" in (x.t or "") and "*" not in (x.t or ""):
+                    cur = env.get(x.n)
+                    if not isinstance(cur, Cursor):
+                        return ("ref", x.n)      # a cursor that is initialised later
+                return self.ev(e.kids[0], env)
             if e.v == "!":
                 return int(not self.truth(self.ev(e.kids[0], env)))
             if e.v in ("post++", "++"):
@@ -162,6 +169,8 @@ class CSetOp(object):
                     return v        # element of a byte-array key (fs family)
         if k == "MemberExpr":
             b = self.ev(e.kids[0], env)
+            if isinstance(b, tuple) and b and b[0] == "ref":
+                b = env.get(b[1], b)
             if isinstance(b, Cursor):
                 if e.n == "usesValue":
                     return int(b.uses)
@@ -232,6 +241,10 @@ class CSetOp(object):
                     if op == "<" and b == 0:
                         return int(not self.sit.live[a[1]])
                     raise AnalysisError("set-op table: position test %s" % text(e))
+                if a == ("rlen",) and isinstance(b, int) and b <= 0 and op in ("<", ">=", "<=", ">") and \
+                        not (b == 0 and op in ("<=", ">")):
+                    # a position in the result is not negative (success of a helper returning the slot)
+                    return int({"<": False, ">=": True, "<=": False, ">": True}[op])
                 if isinstance(a, tuple) and a[0] == "call<0":
                     return int({"<": False, ">=": True, "==": True, "!=": False}[op]) \
                         if b == 0 else 0
@@ -315,12 +328,15 @@ class CSetOp(object):
         l0 = strip(lhs)
         val = self.ev(rhs, env)
         if l0.k == "DeclRefExpr":
-            env[l0.n] = val.copy() if isinstance(val, Cursor) else val
+            by_value = isinstance(val, Cursor) and "*" not in (l0.t or "")     # a struct copy; a pointer aliases
+            env[l0.n] = val.copy() if by_value else val
             if isinstance(val, Result):
                 self.rkind = val.kind
             return val
         if l0.k == "MemberExpr":
             b = self.ev(l0.kids[0], env)
+            if isinstance(b, tuple) and b and b[0] == "ref":
+                b = env.get(b[1], b)
             if isinstance(b, Cursor) and l0.n == "value":
                 if isinstance(val, int):
                     val = p_const(val)
